@@ -102,6 +102,14 @@ CFG_TB = COMMON_TB + [
     "harness/gen.go: reflection over nfpm.Config (Gen/TypeTree.v), the schema emitted by the freshly built binary and the published one (Gen/Schema.v), the YAML reference block of www/docs/configuration.md via yaml.v3 nodes (Gen/DocConfig.v)",
     "YAML tokenisation is yaml.v3's (documents reach the model as key trees); merge keys and anchors are outside the modelled envelope",
 ]
+PROPS["C06"] = {
+    "level": "proof", "harness": "C06", "driver": "C06", "shrink_field": None, "exhaustive": True,
+    "rule": ("cases = (write) per generated configuration x format x signed/unsigned: the fault-free number W of destination writes, then EVERY k < W with the writer failing at write k in three variants (error once, short write + io.ErrShortWrite, error from k on); "
+             "(refs) every file reference of a configuration (content sources incl. globs and trees, every script slot, changelog, key files) made unreadable one at a time, packaged with all five formats; "
+             "(invalid) each invalid-setting class and a failing signing callback per format; (cli) the freshly built nfpm binary: success, missing source with absent / pre-existing / directory target, target a symlink to /dev/full. "
+             "distinct = distinct case descriptors; all count as non-trivial"),
+    "trusted_base": PKG_TB + ["coq/Model/OutputProgs.v: the packagers' output stages transcribed as writer-stack programs (modelled, not verified); the number of writes zstd issues is a quantified parameter"], "assumptions": [],
+}
 PROPS["C11"] = {
     "level": "proof", "harness": "C11", "driver": "C11", "shrink_field": "ops", "exhaustive": False,
     "rule": ("cases = histories of {validate, file-name(f), package(f)} on ONE parsed configuration: every ordered pair (a, b, a) of the 11 operations (121; quick: a seeded third), all 120 orders of the five packagings (quick: a seeded eighth), "
